@@ -1,14 +1,28 @@
 #!/bin/sh
-# setup_cmd: build everything from files on disk, offline.  Each check rebuilds what it needs, so a
-# failure of one target here must not take the others down (-k / --keep-going).
+# setup_cmd: build everything the registered checks need from files on disk, offline.
+# Each check rebuilds what it needs anyway, so a failure of one target here must not take the others
+# down (-k / --keep-going).  Files outside the checks' dependency cones (e.g. Graph/SemiNca4.v, a
+# 40-minute finite-domain theorem used only by the thorough tier of C11) are not built here.
 cd "$(dirname "$0")/.."
 export CARGO_NET_OFFLINE=true
 mkdir -p work evidence
 cp /repo/Cargo.lock harness/Cargo.lock
 (cd harness && cargo build --offline --bins --keep-going 2>&1 | tail -3)
+TARGETS=$(python3 - <<'PY'
+import sys, os
+sys.path.insert(0, "bin")
+import props
+t = set()
+for pid, c in props.PROPS.items():
+    for x in c.get("coq_targets", []):
+        t.add(x if x.endswith(".vo") else x + ".vo")
+    t.add("theories/Props/%s.vo" % pid)
+print(" ".join(sorted(t)))
+PY
+)
 cd coq
 coq_makefile -f _CoqProject -o Makefile $(find theories -name '*.v' | sort) >/dev/null
-find theories -name '*.v' | sort > .filelist.tmp; tr '\n' '\n' < .filelist.tmp > /dev/null; rm -f .filelist.tmp
-timeout 3000 make -k -j16 2>&1 | tail -3
+find theories -name '*.v' | sort | tr '\n' '\n' | sed -e '$!b' -e 's/$//' | awk 'BEGIN{ORS=""} {if (NR>1) print "\n"; print}' > .filelist
+timeout 6000 make -k -j16 $TARGETS 2>&1 | tail -3
 echo setup done
 exit 0
